@@ -98,8 +98,7 @@ def plan_payload_forwarding(run, F):
     E = effects.Effects(F)
     for fn in F.find('FullControlT', 'updatePlan'):
         calls = [(e, g) for e, g in E.call_sites(fn) if e.get('m') in ('changeWith', 'changeTo')]
-        has_with = [e for e, g in calls if e.get('m') == 'changeWith']
-        if not has_with:
+        if (fn.cls or '').rstrip('> ').endswith('void'):
             continue      # void payload specialisation
         c = cfgmod.cfg_of(fn)
         ok = True
@@ -117,7 +116,7 @@ def plan_payload_forwarding(run, F):
         # changeWith only when that task's payload() is non-null
         nodes = c.events(('call',), lambda n: n.e.get('m') in ('changeWith', 'changeTo'))
         brs = [b for b in c.events(('branch',)) if b.e is not None and 'payload' in ir.pp(b.e)]
-        if len(brs) == 1 and len(nodes) == 2:
+        if len(brs) == 1 and len(nodes) == 2 and sorted(n.e.get('m') for n in nodes) == ['changeTo', 'changeWith']:
             t = [s2 for s2, lab in brs[0].succ if lab == 'T'][0]
             f = [s2 for s2, lab in brs[0].succ if lab == 'F'][0]
             for n in nodes:
